@@ -33,6 +33,44 @@ func (x *Exec) genericProbes(r *StepRec) {
 			}
 		}
 		st.add("g_requests_expired", ne)
+		if x.cfg.MultiToken {
+			// multi-token reach: batches due in this block whose candidates publish a foreign-token price
+			for id, h := range pre.NewH {
+				pc, ok := pre.Ctx[id]
+				if !ok || h != post.Height || pc.State != types.RUNNING {
+					continue
+				}
+				foreign, noRate := false, false
+				for _, p := range pc.Providers {
+					b, ok := post.Bindings[bkey(pc.ServiceName, p)]
+					if !ok || !b.Available || b.QoS > uint64(pc.Timeout) {
+						continue
+					}
+					if hp, err := ParseHPricing(b.Pricing); err == nil && hp.Foreign() {
+						foreign = true
+						if rateFor(post.Rates, hp.Denom) == nil {
+							noRate = true
+						}
+					}
+				}
+				if noRate {
+					st.inc("g_batch_due_without_exchange_rate")
+				} else if foreign {
+					st.inc("g_batch_due_with_foreign_pricing")
+				}
+			}
+			for rid, q := range post.Req {
+				if _, old := pre.Req[rid]; !old && len(q.ServiceFee) == 1 {
+					if c, ok := post.Ctx[hx(q.RequestContextId)]; ok {
+						if b, ok := post.Bindings[bkey(c.ServiceName, q.Provider)]; ok {
+							if hp, err := ParseHPricing(b.Pricing); err == nil && hp.Foreign() {
+								st.inc("g_request_priced_through_exchange_rate")
+							}
+						}
+					}
+				}
+			}
+		}
 		for id, pc := range pre.Ctx {
 			qc, ok := post.Ctx[id]
 			if !ok {
